@@ -413,6 +413,47 @@ func classifyMapRange(info *types.Info, rs *ast.RangeStmt, stack []ast.Node) str
 			}
 		}
 	}
+	// single, by an early exit: an earlier statement of the same block leaves it unless len(X) == 1
+	// (`if len(m) != 1 { return ... }` before the loop)
+	for i := len(stack) - 2; i >= 0; i-- {
+		blk, ok := stack[i].(*ast.BlockStmt)
+		if !ok {
+			continue
+		}
+		for _, st := range blk.List {
+			if st == ast.Stmt(rs) || (i+1 < len(stack) && st == stack[i+1]) {
+				break
+			}
+			iff, ok := st.(*ast.IfStmt)
+			if !ok || iff.Init != nil || iff.Else != nil || len(iff.Body.List) == 0 {
+				continue
+			}
+			be, ok := iff.Cond.(*ast.BinaryExpr)
+			if !ok || be.Op != token.NEQ {
+				continue
+			}
+			call, ok := be.X.(*ast.CallExpr)
+			if !ok || exprString(call.Fun) != "len" || len(call.Args) != 1 || exprString(call.Args[0]) != x {
+				continue
+			}
+			if tv, ok := info.Types[be.Y]; !ok || tv.Value == nil || tv.Value.ExactString() != "1" {
+				continue
+			}
+			switch last := iff.Body.List[len(iff.Body.List)-1].(type) {
+			case *ast.ReturnStmt:
+				return "single"
+			case *ast.BranchStmt:
+				if last.Tok == token.CONTINUE || last.Tok == token.BREAK || last.Tok == token.GOTO {
+					return "single"
+				}
+			case *ast.ExprStmt:
+				if c2, ok := last.X.(*ast.CallExpr); ok && (exprString(c2.Fun) == "panic" || exprString(c2.Fun) == "os.Exit") {
+					return "single"
+				}
+			}
+		}
+		break // only the innermost enclosing block and its predecessors... and the blocks around it
+	}
 	// commutative: body is only guarded extrema updates, counters, map/set updates
 	if commutativeBody(info, rs) {
 		return "commutative"
